@@ -14,9 +14,9 @@ def expected_facadeBodiesWrathClient : List (List String) := [["encrypt: {self.e
 def expected_facadeBodiesWrathServer : List (List String) := [["encrypt: {self.encrypt.encrypt(data);}", "write_encrypted_server_header: {self.encrypt.write_encrypted_server_header(write,size,opcode)}", "encrypt_server_header: {self.encrypt.encrypt_server_header(size,opcode)}", "decrypt: {self.decrypt.decrypt(data);}", "read_and_decrypt_client_header: {self.decrypt.read_and_decrypt_client_header(reader)}", "decrypt_client_header: {self.decrypt(&mutdata);ClientHeader::from_array(data)}", "split: {(self.encrypt,self.decrypt)}"]]
 
 theorem source_facade_vanilla : Gen.facadeBodiesVanilla = expected_facadeBodiesVanilla := by decide +kernel
-theorem source_facade_tbc : Gen.facadeBodiesTbc = expected_facadeBodiesTbc := by decide
-theorem source_facade_wrath_client : Gen.facadeBodiesWrathClient = expected_facadeBodiesWrathClient := by decide
-theorem source_facade_wrath_server : Gen.facadeBodiesWrathServer = expected_facadeBodiesWrathServer := by decide
+theorem source_facade_tbc : Gen.facadeBodiesTbc = expected_facadeBodiesTbc := by decide +kernel
+theorem source_facade_wrath_client : Gen.facadeBodiesWrathClient = expected_facadeBodiesWrathClient := by decide +kernel
+theorem source_facade_wrath_server : Gen.facadeBodiesWrathServer = expected_facadeBodiesWrathServer := by decide +kernel
 
 /-- C11 / C12 / C14: every facade method of the three expansions is the delegation to its half that the model (and `HObj.step`) assumes -/
 theorem C11_source_facade_delegates :
